@@ -111,6 +111,37 @@ def cases(ctx):
     for ln in (1, 20, 32, 200):
         b = bytes(r.randrange(256) for _ in range(ln))
         add("authorityKeyIdentifier", {"id": "!binary:" + b64(b)}, {"mode": "explicit", "id": list(b)})
+    # sizes: every text-valued member across the DER length-form borders (127/128, 255/256, and 65535/65536 in thorough)
+    sizes = [127, 128, 129, 255, 256, 257, 1000] + ([] if ctx.quick else [4095, 4096, 65535, 65536])
+    def text(n, head, alphabet="abcdefghij"):
+        s_ = head + "".join(alphabet[i % len(alphabet)] for i in range(n))
+        return s_[:n]
+    for n in sizes:
+        for t, head in (("mail", "user@"), ("dns", "host."), ):
+            g = gn(t, text(n, head))
+            add("subjectAlternativeName", [g[0]], {"names": [g[1]]}, klass="size/san-%s" % t)
+            g2 = gn("ip", "10.0.0.1")
+            add("subjectAlternativeName", [g2[0], g[0], g2[0]], {"names": [g2[1], g[1], g2[1]]}, klass="size/san-%s-between" % t)
+        u = text(n, "http://ocsp.example/")
+        add("authorityInformationAccess", [{"ocsp": u}], {"uris": [list(u.encode())]}, klass="size/aia")
+        add("authorityInformationAccess", [{"ocsp": "http://a"}, {"ocsp": u}], {"uris": [list(b"http://a"), list(u.encode())]}, klass="size/aia-second")
+        cps = text(n, "http://cps.example/")
+        add("certificatePolicies", [{"oid": oids[0], "qualifiers": [{"cps": cps}]}],
+            {"policies": [{"oid": oid_arcs(oids[0]), "quals": [{"kind": "cps", "uri": list(cps.encode()), "hasRef": False, "org": [], "numbers": [], "hasText": False, "text": []}]}]}, klass="size/cps")
+        if n <= 200 or not ctx.quick or n in (255, 256):
+            # DisplayText is limited to 200 characters by RFC 5280; gopki does not enforce it, what it writes must still be the configured text
+            org, txt = text(n, "Org "), text(n, "Notice ")
+            add("certificatePolicies", [{"oid": oids[0], "qualifiers": [{"userNotice": {"organization": org, "numbers": [1], "text": txt}}]}],
+                {"policies": [{"oid": oid_arcs(oids[0]), "quals": [{"kind": "userNotice", "uri": [], "hasRef": True, "org": list(org.encode()), "numbers": [1], "hasText": True, "text": list(txt.encode())}]}]},
+                klass="size/userNotice")
+        b_ = bytes((i * 7) % 256 for i in range(n))
+        add("authorityKeyIdentifier", {"id": "!binary:" + b64(b_)}, {"mode": "explicit", "id": list(b_)}, klass="size/aki")
+    # many entries: the list itself crosses the borders
+    for cnt in (10, 40, 130):
+        combo = [gn("dns", "h%03d.example" % i) for i in range(cnt)]
+        add("subjectAlternativeName", [c[0] for c in combo], {"names": [c[1] for c in combo]}, klass="size/san-count")
+        us = ["http://ocsp%03d.example" % i for i in range(cnt)]
+        add("authorityInformationAccess", [{"ocsp": u} for u in us], {"uris": [list(u.encode()) for u in us]}, klass="size/aia-count")
     return out
 
 
@@ -122,6 +153,6 @@ def run(ctx, replay=None):
                             "one evaluation = one extension content through the real pipeline (inside a self-signed P-256 certificate), value decoded by the "
                             "strict TLA+ type decoder and compared with the configured content; distinct configuration texts",
                             {"explanation": "all 128 key-usage subsets, ca x pathLen (0..255 thorough), SAN lists 0..3, policy qualifier shapes (cps, userNotice with every "
-                                            "subset of organization/numbers/text), AIA lists, EKU over names and OIDs, hashed and explicit key identifiers, ocspNoCheck; each with critical true/false/omitted"})
+                                            "subset of organization/numbers/text), AIA lists, EKU over names and OIDs, hashed and explicit key identifiers, ocspNoCheck; each with critical true/false/omitted; every text-valued member and the lists themselves across the length-form borders 127/128, 255/256 (thorough: 65535/65536)"})
     return ctx.finish("exploration", cov, ["Extensions.tla was self-tested on 148 hand-built and OpenSSL-made vectors (spec/ExtTest.tla)",
                                            "DisplayText may use any string type that spells the configured text in UTF-8/ASCII"])
